@@ -240,6 +240,32 @@ func c05History(src string, mk func() any, mkOther func() any, mkVar func() any)
 	if !check("after interleaved runs") || !same(o1, oa, "the output sequence", "interleaved iterator a") || !same(o1, ob, "the output sequence", "interleaved iterator b") {
 		return problem, true
 	}
+	// H4: an iterator that has ended stays ended while the same Code runs again, and that run is a run of its own
+	ended := run(in, vr)
+	finished := false
+	for n := 0; n < c05MaxOut+2; n++ {
+		v, ok := ended.Next()
+		if !ok {
+			finished = true
+			break
+		}
+		if _, isErr := v.(error); isErr {
+			break
+		}
+	}
+	if finished {
+		again := run(in, vr)
+		if v, ok := ended.Next(); ok {
+			return fmt.Sprintf("an iterator that had ended returned (%v, true) after another run of the same Code was started", v), true
+		}
+		o7, _ := r.drain(again, "run7(next to an ended iterator)", c05MaxOut)
+		if v, ok := ended.Next(); ok {
+			return fmt.Sprintf("an iterator that had ended returned (%v, true) after another run of the same Code was drained", v), true
+		}
+		if !check("after run 7") || !same(o1, o7, "the output sequence", "a run started next to an ended iterator") {
+			return problem, true
+		}
+	}
 	return "", nontrivial
 }
 
@@ -417,7 +443,7 @@ func init() {
 	engine.Register(&engine.Check{
 		ID:    "C05",
 		Level: "exploration",
-		Rule: "every derivation (<= 3 nodes, thorough 4) of a mutation-prone grammar (update, delete, add, sort, slice, accumulate, container constants, variables), every builtin of `builtins` applied with a small argument set, and every corpus query x 10 inputs built with aliased substructure, spare capacity with sentinels, json.Number and *big.Int leaves x a fixed set of histories of one *Code (drained x3 on the same input object, fresh equal copy, abandoned after one output + other input + re-run, two live iterators advanced alternately); " +
+		Rule: "every derivation (<= 3 nodes, thorough 4) of a mutation-prone grammar (update, delete, add, sort, slice, accumulate, container constants, variables), every builtin of `builtins` applied with a small argument set, and every corpus query x 10 inputs built with aliased substructure, spare capacity with sentinels, json.Number and *big.Int leaves x a fixed set of histories of one *Code (drained x3 on the same input object, fresh equal copy, abandoned after one output + other input + re-run, two live iterators advanced alternately, an ended iterator polled while the Code runs again); " +
 			"deep snapshots incl. spare capacity of the input, the variable value, every container constant in the instruction list and every emitted value are compared after every step, and output sequences and Marshal bytes with run 1. Cache histories: 10 regex programs whose pattern and flags come from the input x every ordered pair of 90 inputs (6 patterns x 15 flag values, valid and invalid) run on one Code, the second run compared with a fresh Code. A (program, input) pair is non-trivial when the first run emits something.",
 		Assume: []string{"Go map iteration order cannot be owned by a harness: dependence on it is only re-sampled (several runs per history), not enumerated", "same-value writes are invisible to snapshots (they are C06's business)"},
 		Run:    c05Run, Replay: c05Replay,
